@@ -10,7 +10,10 @@
 // complement of X and the identical device-fault script. A byte of the output that random_data did not
 // write from device data is equal in both passes; a byte it did write differs by exactly the complement.
 #include <errno.h>
+#include <fcntl.h>
 #include <string.h>
+#include <sys/wait.h>
+#include <unistd.h>
 
 #include <string>
 #include <thread>
@@ -51,6 +54,9 @@ struct PassResult {
 const uint8_t PREFILL = 0xA5; // its complement 0x5A also never collides with "unwritten == equal"
 
 } // namespace
+
+// Result of the once-per-process probe (probe_first_use_with_descriptor_0); "" = fine.
+static string g_fd0_probe_failure;
 
 static int64_t draw_i64(const char* site) {
   switch (choose(8, site)) {
@@ -120,7 +126,7 @@ static PassResult run_pass(const std::vector<Op>& ops) {
       try {
         switch (op.kind) {
           case 0: {
-            set_context("random_data(void*," + std::to_string(op.n) + ")");
+            set_context(op.n > 4096 ? "random_data(void*, n > 4096)" : "random_data(void*, n <= 4096)");
             // exact-size heap block: ASan guards both ends; the extra guard bytes are inside a
             // separate outer buffer so an off-by-one inside the block is also visible to the oracle
             string block(op.n, (char)PREFILL);
@@ -143,7 +149,7 @@ static PassResult run_pass(const std::vector<Op>& ops) {
             break;
           }
           case 1:
-            set_context("random_data(" + std::to_string(op.n) + ")");
+            set_context(op.n > 4096 ? "random_data(n > 4096)" : "random_data(n <= 4096)");
             r.bytes = phosg::random_data(op.n);
             break;
           case 2: {
@@ -192,6 +198,7 @@ static string op_name(const Op& op) {
 
 static void run() {
   vfs::reset();
+  if (!g_fd0_probe_failure.empty()) fail("random_data/first_use_with_descriptor_0", "fd0", g_fd0_probe_failure);
   int mode = choose(6, "dev.mode");
   uint64_t dseed = choose(1 << 20, "dev.seed");
   std::vector<Op> ops = gen_ops();
@@ -294,7 +301,48 @@ static void run() {
   }
 }
 
+
+// random_data opens /dev/urandom through a function-local static the first time it is called in a
+// process. A process started without stdin gets descriptor 0 for it. That configuration cannot vary per
+// run (the static is per process), so it is probed once, in a forked child, before any run.
+static void probe_first_use_with_descriptor_0() {
+  fflush(stdout);
+  fflush(stderr);
+  pid_t pid = fork();
+  if (pid < 0) return;
+  if (pid == 0) {
+    int devnull = open("/dev/null", O_WRONLY);
+    if (devnull >= 0) dup2(devnull, 2);
+    vfs::reset();
+    vfs::set_urandom(5, 12345);
+    vfs::urandom_open_returns_fd0(true);
+    int code = 0;
+    try {
+      uint8_t buf[64];
+      memset(buf, 0, sizeof(buf));
+      phosg::random_data(buf, sizeof(buf));
+      bool all_zero = true;
+      for (uint8_t b : buf) all_zero &= b == 0;
+      if (all_zero) code = 3;
+      int64_t v = phosg::random_int(10, 20);
+      if (v < 10 || v > 20) code = 4;
+    } catch (const std::exception&) {
+      code = 2;
+    }
+    _exit(code);
+  }
+  int status = 0;
+  while (waitpid(pid, &status, 0) < 0 && errno == EINTR) {
+  }
+  if (WIFEXITED(status) && WEXITSTATUS(status) == 0) return;
+  if (WIFEXITED(status) && WEXITSTATUS(status) == 2) g_fd0_probe_failure = "the first random_data call of a process threw when /dev/urandom was opened as descriptor 0 (process started without stdin)";
+  else if (WIFEXITED(status) && WEXITSTATUS(status) == 3) g_fd0_probe_failure = "random_data left its buffer unfilled when /dev/urandom was opened as descriptor 0";
+  else if (WIFEXITED(status) && WEXITSTATUS(status) == 4) g_fd0_probe_failure = "random_int left [lo,hi] when /dev/urandom was opened as descriptor 0";
+  else g_fd0_probe_failure = "the process died in its first random_data call when /dev/urandom was opened as descriptor 0";
+}
+
 static void process_init() {
+  probe_first_use_with_descriptor_0();
   // random_data opens the device through a function-local static on its first call ever; do that
   // before any run so that every run starts from the same process state
   vfs::reset();
